@@ -124,7 +124,7 @@ class QuantityVector(DimensionSymbol):
         if dimension is None:
             dimension = dimensionless
             for q in quantities:
-                if q.scale_factor != 0:
+                if q.scale_factor != 0 and not q.scale_factor.is_zero:
                     dimension = q.dimension
                     break
         scale_factors = []
